@@ -64,8 +64,8 @@ func clonePlan(p *migrate.Plan) *migrate.Plan {
 // with custom delimiters / directives (k selects which ones in the quick tier).
 func variants(w *out.W, tmp string, base string, d dialect, p *migrate.Plan, class, desc string, k int, all bool, sp *spec, label string) {
 	for fi, fm := range formats {
-		// quick tier: the atlas format always, three of the five sqltool formats in rotation
-		if !all && fi > 0 && (k+fi)%5 >= 3 {
+		// quick tier: the atlas format always, two of the five sqltool formats in rotation
+		if !all && fi > 0 && (k+fi)%5 >= 2 {
 			continue
 		}
 		q := clonePlan(p)
@@ -114,7 +114,7 @@ func runPlans(w *out.W, tier, outDir string) {
 	// 1. exhaustive small domain: one hot string in one role
 	n := 0
 	for si, s := range singles() {
-		if !thorough && s.shape != 0 && si%4 != 0 {
+		if !thorough && s.shape != 0 && si%8 != 0 {
 			continue
 		}
 		for ii, indent := range []string{"", "  "} {
@@ -134,7 +134,7 @@ func runPlans(w *out.W, tier, outDir string) {
 	w.Set("single_feature_plans", n)
 	// 2. seeded random combinations
 	r := rng.FromEnv(0xC07)
-	nc := 150
+	nc := 100
 	if thorough {
 		nc = 3000
 	}
